@@ -55,6 +55,11 @@ theorem no_self_deadlock :
     `C18.crash_atomic` is about -/
 theorem write_sequence_atomic : writeSeq = atomicSeq ∧ writeSeqUnknown = [] := by decide
 
+/-- the replacement file written by DefaultFileParser.Write keeps the modification time the file
+    system gave it at the write: nothing in the file sets file times (`os.Chtimes`, `Utimes`, …) — the
+    `keepStamp = false` instance of `Conf.writeBackFile`, hypothesis of `C18.own_write_is_loaded` -/
+theorem replacement_carries_time_of_write : writeSetsTimes = [] := by decide
+
 /-- interpreted: the call sequence *as regenerated from the source*, run on the file-system models,
     leaves the configuration path with the complete old or new content at every process-stop point
     and after every power loss, for all contents -/
